@@ -24,6 +24,7 @@
 -/
 import KavaVerif.Proofs.LiquidTally
 import KavaVerif.Proofs.LiquidRate
+import KavaVerif.Proofs.LiquidBurnGuard
 set_option linter.unusedSimpArgs false
 set_option linter.unusedVariables false
 
@@ -568,5 +569,39 @@ example : (tally Cfg.current exTVals exTVotes).map (fun o => decide (bondedTotal
 
 /-- before 932d1f99a + 66dfa73a4: the tally divides by the zero shares of an emptied validator (panic) -/
 example : (tally Cfg.current exTValsEmpty exTVotesEmpty).isSome = false := by decide
+
+/-! ## 8. MsgBurnDerivative: the coin must be the NAMED validator's own derivative
+
+  The message has two independent fields, the validator and the coin.  "Burning moves it back" and "every holder can
+  always redeem" are per validator: only bkava-<v> may take shares out of the module's delegation to v.
+  (Model/LiquidBurnGuard.lean, Proofs/LiquidBurnGuard.lean; the harness sends such messages — c12.cross — and the
+  driver's predicate is `C12_guards burn-denom-validator-mismatch-accepted`.) -/
+
+/-- **Guards, burn message** (any configuration).  A MsgBurnDerivative whose coin is not the derivative of the
+    validator it names — another validator's derivative, a derivative denom of an address without validator, any
+    other denom — is refused and changes nothing in any history; an accepted one is exactly the per-validator burn
+    all the other C12 theorems speak about. -/
+theorem C12_guards_burn_denom (g : Cfg) (M : Addr) (s : Chain) (d v : Nat) (dn : CoinDenom) (amount : Int) :
+    (dn ≠ .deriv v → stepBurn g M s d v dn amount = .err ∧
+        ∀ ms, runM g M s (.burnCoin d v dn amount :: ms) = runM g M s ms) ∧
+    (∀ s', stepBurn g M s d v dn amount = .ok s' → dn = .deriv v ∧ step g M s (.burn d v amount) = .ok s') :=
+  ⟨fun h => ⟨stepBurn_mismatch_refused g M s d v dn amount h, fun ms => runM_mismatch_skip g M s d v dn amount ms h⟩,
+   fun s' h => stepBurn_ok_is_burn g M s s' d v dn amount h⟩
+
+/-- **Backing along histories of messages** (live model): `C12_backed` with burn messages that carry any denom. -/
+theorem C12_backed_messages (accts : List Addr) (hn : accts.Nodup) (M : Addr) (hM : M ∈ accts) (ms : List MOp) (s s' : Chain)
+    (hact : ∀ op ∈ ms.filterMap MOp.toOp, ∀ a ∈ op.actors, a ∈ accts)
+    (hwf : ∀ w, WF accts (s w)) (hb : ∀ w, Backed M (s w))
+    (hrun : runM cfg M s ms = some s') : ∀ w, Backed M (s' w) :=
+  C12_backed accts hn M hM (ms.filterMap MOp.toOp) s s' hact hwf hb (by rw [← runM_eq_run]; exact hrun)
+
+/-- **What the comparison is for**: the same message without it (`burnUnguarded`, NOT the code) is accepted on the
+    backed two-validator state `exTwo` and leaves validator 1's 10 derivative units with one module share; the code
+    refuses it. -/
+theorem C12_burn_denom_guard_needed :
+    (Backed 0 (exTwo 0) ∧ Backed 0 (exTwo 1)) ∧
+    (burnUnguarded cfg 0 exTwo 1 0 1 9).okAnd (fun s' => decide (¬ Backed 0 (s' 1) ∧ (s' 1).supply = 10 ∧ (s' 0).supply = 1)) = true ∧
+    (stepBurn cfg 0 exTwo 1 1 (.deriv 0) 9).isErr = true :=
+  ⟨exTwo_backed, burnUnguarded_breaks_backing, stepBurn_exTwo_refused⟩
 
 end KV.Liquid
